@@ -42,7 +42,8 @@ ASSUMPTIONS = [
     "file form: extra columns are floats (the reader's documented behaviour)",
 ]
 REQUIRED = ["tree_form_checked", "table_form_checked", "file_form_checked", "idempotence_checked",
-            "tap_sort_nodes_impl", "is_sorted_true", "is_sorted_on_inputs", "tree_root_not_at_0", "size_sweep_cases"]
+            "tap_sort_nodes_impl", "is_sorted_true", "is_sorted_on_inputs", "tree_root_not_at_0", "size_sweep_cases",
+            "read_options_by_position"]
 FLOOR = {"quick": 1000, "thorough": 60000}
 SHARDS = {"quick": 8, "thorough": 16}
 
@@ -263,7 +264,21 @@ def _file_form(ctx, case, spec):
     text = "\n".join(lines) + "\n"
     with warnings.catch_warnings():
         warnings.simplefilter("ignore")
-        out, _ = su.read_swc(io.StringIO(text), extra_cols=extras, sort_nodes=True)
+        # the request spelled by keyword, with the extra columns by position, all by position
+        # (extra_cols, fix_roots, sort_nodes), or with reset_index spelled out as well
+        form = case["tseed"] % 4
+        if form == 0:
+            out, _ = su.read_swc(io.StringIO(text), extra_cols=extras, sort_nodes=True)
+        elif form == 1:
+            out, _ = su.read_swc(io.StringIO(text), extras, sort_nodes=True)
+            ctx.count("read_options_by_position")
+        elif form == 2:
+            out, _ = su.read_swc(io.StringIO(text), extras, False, True)
+            ctx.count("read_options_by_position")
+        else:
+            out, _ = su.read_swc(io.StringIO(text), tuple(extras), sort_nodes=True,
+                                 reset_index=bool(case["tseed"] % 8 < 4))
+            ctx.count("read_options_by_position")
     ctx.count("file_form_checked")
     r = _check_sorted_result(out["id"].to_numpy(), out["pid"].to_numpy(), "read_swc(sort)")
     if r:
